@@ -1,4 +1,5 @@
 """C01 -- generated graphs realise exactly the requested joint degree sequence."""
+import numbers
 from collections import Counter
 
 from vlib.runner import Violation
@@ -60,7 +61,7 @@ def check(case):
     N = case["N"]
     sizes = G.motif_sizes(case)
     # construction path returns the right kind of generator
-    if type(g) is not cls:
+    if not isinstance(g, cls):
         raise Violation("wrong-class", f"path {case['path']} for algo {algo} built {type(g).__name__}")
     if jds != pristine:
         raise Violation("input-mutated", f"the joint degree sequence passed in was modified: {jds} vs {pristine}")
@@ -89,7 +90,7 @@ def check(case):
                                                  f"{dict(slots[o])}, joint degrees prescribe {dict(want)}")
     for _, vs, _ in journal:
         for v in vs:
-            if not (isinstance(v, int) and 0 <= v < N):
+            if not (isinstance(v, numbers.Integral) and not isinstance(v, bool) and 0 <= v < N):
                 raise Violation("foreign-vertex", f"vertex {v!r} outside 0..{N - 1} handed to a callback")
     # ---- the library's own motif generators emit the documented edges (clique: all pairs; cycle: consecutive
     # pairs plus the closing edge; diamond: 4-cycle plus both chords), also when a vertex fills two slots
@@ -123,7 +124,7 @@ def check(case):
         jd = res.joint_degrees
         if [tuple(x) for x in jd] != pristine or len(jd) != N:
             raise Violation("jds-not-carried", f"edge list joint_degrees {jd} != requested {pristine}")
-        # edges emitted = exactly the callback edges, in call order.  (Row format is C02's business: here a
+        # edges emitted = exactly the callback edges.  (Row format is C02's business: here a
         # two-edge motif stored as one row still counts for both of its edges.)
         flat = []
         for e in res.edge_list:
@@ -133,12 +134,22 @@ def check(case):
                 flat.extend(tuple(x) for x in e)
             else:
                 flat.append(tuple(e))
-        if flat != rows:
-            raise Violation("edges-vs-callbacks", f"edge column {res.edge_list} is not the concatenation of the "
-                                                  f"callback returns {rows}")
+        # (as a multiset of unordered pairs: neither the order of the rows nor the orientation of a pair is fixed)
+        if Counter(tuple(sorted(e)) for e in flat) != Counter(tuple(sorted(e)) for e in rows):
+            raise Violation("edges-vs-callbacks", f"edge column {res.edge_list} does not hold exactly the edges the "
+                                                  f"callbacks returned {rows}")
+        # "emits exactly that many motif instances": the instances of an edge list are its motif ids, so the ids
+        # label every row and there are as many of them as callback returns with at least one edge
+        nonempty = sum(1 for r in (norm_edges(es, case["motifs"][j].get("ret") == "bare") for j, _, es in journal) if r)
+        ids = list(res.motif_id)
+        if len(ids) != len(res.edge_list):
+            raise Violation("instance-ids", f"{len(res.edge_list)} edge rows but {len(ids)} motif ids")
+        if len(set(map(repr, ids))) != nonempty:
+            raise Violation("instance-ids", f"{len(set(map(repr, ids)))} distinct motif ids for {nonempty} motif instances "
+                                            f"with edges; motif_id={ids}")
         for e in flat:
             for v in e:
-                if not (isinstance(v, int) and 0 <= v < N):
+                if not (isinstance(v, numbers.Integral) and not isinstance(v, bool) and 0 <= v < N):
                     raise Violation("foreign-vertex", f"vertex {v!r} in edge list outside 0..{N - 1}")
     total = sum(want_inst)
     return {"nontrivial": total >= 2 and max(want_inst, default=0) >= 2, "classes": sorted(G.classes_of(case)),
